@@ -648,7 +648,11 @@ func addTransceiverSDP(
 
 	addSenderSDP(mediaSection, isPlanB, media)
 
-	media = media.WithPropertyAttribute(transceiver.Direction().String())
+	direction := transceiver.Direction()
+	if mediaSection.offeredDirection != RTPTransceiverDirectionUnknown {
+		direction = answerDirection(direction, mediaSection.offeredDirection)
+	}
+	media = media.WithPropertyAttribute(direction.String())
 
 	for _, fingerprint := range dtlsFingerprints {
 		media = media.WithFingerprint(fingerprint.Algorithm, strings.ToUpper(fingerprint.Value))
@@ -669,6 +673,30 @@ type simulcastRid struct {
 	id        string
 	attrValue string
 	paused    bool
+}
+
+// answerDirection limits the direction we would like to use to what the offer
+// allows (RFC 3264 section 6.1): we only send if the offerer receives, and we
+// only receive if the offerer sends.
+func answerDirection(local, offered RTPTransceiverDirection) RTPTransceiverDirection {
+	sends := func(d RTPTransceiverDirection) bool {
+		return d == RTPTransceiverDirectionSendrecv || d == RTPTransceiverDirectionSendonly
+	}
+	recvs := func(d RTPTransceiverDirection) bool {
+		return d == RTPTransceiverDirectionSendrecv || d == RTPTransceiverDirectionRecvonly
+	}
+	send := sends(local) && recvs(offered)
+	recv := recvs(local) && sends(offered)
+	switch {
+	case send && recv:
+		return RTPTransceiverDirectionSendrecv
+	case send:
+		return RTPTransceiverDirectionSendonly
+	case recv:
+		return RTPTransceiverDirectionRecvonly
+	default:
+		return RTPTransceiverDirectionInactive
+	}
 }
 
 // addRejectedMediaSection mirrors an unusable remote m-section: same media
@@ -703,6 +731,9 @@ type mediaSection struct {
 	sctpInit        []byte
 	matchExtensions map[string]int
 	rids            []*simulcastRid
+	// offeredDirection is the direction of the offered m-section this section
+	// answers (unknown when generating an offer).
+	offeredDirection RTPTransceiverDirection
 	// rejected is set for a remote m-section that cannot be used (unknown media
 	// type, no direction): it is mirrored with port 0 so that the answer keeps
 	// one m-section per offered m-section.
